@@ -307,7 +307,9 @@ def havoc_loc(ex,loc,st):
 
 def havoc_ghost(spec,st):
   for g in getattr(spec,'ghost',()):
-    v=st.env[g]; st.env[g]=type(v)(z3.Const(f"{g}@loop!{st.nextid[0]}",v.arr.sort())); st.nextid[0]+=1
+    v=st.env[g]
+    if isinstance(v,I): st.env[g]=I(z3.Int(f"{g}@loop!{st.nextid[0]}")); st.nextid[0]+=1; continue
+    st.env[g]=type(v)(z3.Const(f"{g}@loop!{st.nextid[0]}",v.arr.sort())); st.nextid[0]+=1
 
 # ---------------------------------------------------------------------------------- contract language
 def _dv(d,st):
@@ -459,7 +461,15 @@ class SetList:
   def has_method(s,m): return m in s.METHODS
   def contains(s,ex,o,x,st,negate):
     t=z3.Select(st.heap[(o.id,'arr')],to_obj(x,st)); yield st,B(z3.Not(t) if negate else t)
-  def getitem(s,ex,o,idx,st): raise Unsupported("indexing a list that is abstracted by its element set")
+  def getitem(s,ex,o,idx,st):
+    # l[0] / l[-1] of a list in arbitrary order: some member (IndexError when empty)
+    if not (is_intlike(idx) and z3.is_int_value(z3.simplify(as_int(idx))) and z3.simplify(as_int(idx)).as_long() in(0,-1)):
+      raise Unsupported("indexing a list that is abstracted by its element set (only [0] / [-1])")
+    arr=st.heap[(o.id,'arr')]
+    for st1,empty in ex.branch(st,arr==EMPTY):
+      if empty: yield st1,Exc('IndexError','list index out of range'); continue
+      e=z3.Const(f"item!{st1.nextid[0]}",Obj); st1.nextid[0]+=1
+      st2=st1.fork(z3.Select(arr,e)); yield st2,from_obj(e,st2.heap.get((o.id,'elem')),st2)
   def setitem(s,ex,o,idx,v,st): raise Unsupported("item store on a list that is abstracted by its element set")
   def call(s,ex,o,m,args,kw,st):
     arr=st.heap[(o.id,'arr')]
@@ -517,6 +527,16 @@ def _sf_snd(s,args,st): return I(Obj.ival(Obj.snd(to_obj(args[0],st))))
 def _sf_isintpair(s,args,st):
   t=to_obj(args[0],st); return B(z3.And(Obj.is_pair(t),Obj.is_ibox(Obj.fst(t)),Obj.is_ibox(Obj.snd(t))))
 SPEC_FUNS.update({'idof':_sf_idof,'unid':_sf_unid,'fst':_sf_fst,'snd':_sf_snd,'is_int_pair':_sf_isintpair})
+def declare_pure_method(name,arity,kind):
+  """an uninterpreted total function of `arity` objects with result kind 'bool' | 'obj' | 'set'; usable as a spec function and (through the
+  contract option pure_methods) as the meaning of the method call x.name(args...)."""
+  rs={'bool':z3.BoolSort(),'obj':Obj,'set':SetSort}[kind]
+  uf=z3.Function('pm_'+name,*([Obj]*arity),rs)
+  def sf(s,args,st):
+    t=uf(*[to_obj(a,st) for a in args[:arity]])
+    return B(t) if kind=='bool' else Opq(t,'obj') if kind=='obj' else SetV(t,ObjK())
+  SPEC_FUNS[name]=sf
+  return uf
 def _sf_dups(s,args,st):
   o=args[0]; return SetV(st.heap.get((o.id,'multi'),EMPTY),st.heap.get((o.id,'elem')))
 SPEC_FUNS.update({'card':_sf_card,'elems':_sf_elems,'dups':_sf_dups})
